@@ -54,6 +54,9 @@ func anchorFuncs(spec *propSpec, p *Prog) ([]*FuncInfo, []string) {
 		ids[id] = true
 	}
 	for _, o := range c.Obs {
+		if isPackageScanRule(o.Rule) {
+			continue // package-wide scanning rules name every function they visit: not anchors of the property
+		}
 		k := o.Key
 		for _, sep := range []string{":", "#", "~"} {
 			if i := strings.Index(k, sep); i > 0 {
@@ -79,6 +82,17 @@ func anchorFuncs(spec *propSpec, p *Prog) ([]*FuncInfo, []string) {
 	}
 	sort.Slice(out, func(i, j int) bool { return out[i].ID < out[j].ID })
 	return out, base
+}
+
+// isPackageScanRule: rules that visit every function of a package (generic disciplines); the functions they name are not
+// taken as anchors of the mutation sweep (the sweep measures the property-specific rules on the property's own code).
+func isPackageScanRule(rule string) bool {
+	for _, suf := range []string{"value-guarded-by-error", "error-branch-fails", "lock.pairing", "crash.inventory", "crash.value-types", "no-stale-element-pointer", "loopvar", "count-before-eof", "join.read-after-sync", "forget.link-count-writers"} {
+		if strings.HasSuffix(rule, suf) {
+			return true
+		}
+	}
+	return false
 }
 
 func genMutants(p *Prog, f *FuncInfo, src []byte, rel string) []mutant {
@@ -163,7 +177,7 @@ func genMutants(p *Prog, f *FuncInfo, src []byte, rel string) []mutant {
 				}
 			}
 		case *ast.ExprStmt:
-			if _, ok := x.X.(*ast.CallExpr); ok {
+			if call, ok := x.X.(*ast.CallExpr); ok && !inLog(call) {
 				add("del-stmt", x.Pos(), x.End(), "")
 			}
 		case *ast.IncDecStmt:
